@@ -304,6 +304,17 @@ impl Matcher {
                                     basis_before.round_dp(2)
                                 )));
                             }
+                            if ledger.adjustment_exceeds_lot_cost(-net_value) {
+                                return Err(CgtError::InvalidTransaction(format!(
+                                    "CAPRETURN {} on {}: capital distribution £{} exceeds the \
+                                     allowable cost of an acquisition it is apportioned to. \
+                                     TCGA92/S122(2) does not apply when distribution exceeds \
+                                     expenditure (CG57847).",
+                                    tx.ticker,
+                                    tx.date,
+                                    net_value.round_dp(2)
+                                )));
+                            }
                             ledger.apply_cost_adjustment(-net_value);
                         }
                     }
